@@ -134,6 +134,8 @@ def frame_entry(eng, st, tgt):
         return ('ref', tgt[1].t)
     if tgt[0] == 'each':
         return ('each', eng.list_len(st, tgt[1]), eng.list_arr(st, tgt[1]), calls.target_key(eng, tgt))
+    if tgt[0] == 'eachlist':
+        return ('eachlist', eng.list_len(st, tgt[1]), eng.list_arr(st, tgt[1]))
     return ('field', tgt[1].t, calls.target_key(eng, tgt))
 
 
